@@ -16,7 +16,7 @@ import (
 )
 
 func init() {
-	register("C02", "other", LoadOpts{TC: true, SSA: true, NeedGen: true, Controls: []string{"cells"}}, checkC02)
+	register("C02", "other", LoadOpts{TC: true, SSA: true, NeedGen: true, Controls: []string{"cells", "cells2"}}, checkC02)
 }
 
 type lform struct {
@@ -624,10 +624,31 @@ func laFrame(c *Ctx, rule string) {
 		return
 	}
 	key := "parquet.(*Metadata).Footer length"
-	sites := ops.byFn[ft]
+	// the data-carrying sink writes: calls that hand bytes (a []byte, string or interface payload) to the sink or a wrapper of it;
+	// wrapping the sink (bufio.NewWriter(w)) and flushing the wrapper carry no data of their own
+	var sites []*OpSite
+	for _, st := range ops.byFn[ft] {
+		carries := false
+		for _, a := range callArgs(st.Site.Common()) {
+			if ops.t.Has(a) {
+				continue
+			}
+			switch tt := a.Type().Underlying().(type) {
+			case *types.Slice, *types.Interface:
+				carries = true
+			case *types.Basic:
+				if tt.Info()&types.IsString != 0 {
+					carries = true
+				}
+			}
+		}
+		if carries {
+			sites = append(sites, st)
+		}
+	}
 	okLen, why := false, ""
 	if len(sites) != 2 {
-		why = fmt.Sprintf("Footer makes %d sink writes, want metadata + length", len(sites))
+		why = fmt.Sprintf("Footer makes %d data-carrying sink writes, want metadata + length", len(sites))
 	} else {
 		a, b := sites[0], sites[1]
 		if a.Site.Pos() > b.Site.Pos() {
@@ -636,7 +657,7 @@ func laFrame(c *Ctx, rule string) {
 		ac, _ := a.Site.(*ssa.Call)
 		bc, _ := b.Site.(*ssa.Call)
 		switch {
-		case ac == nil || bc == nil || !ac.Call.IsInvoke():
+		case ac == nil || bc == nil || !isWriteMethodCall(&ac.Call):
 			why = "unexpected call forms"
 		case fullCalleeName(&bc.Call) != "encoding/binary.Write":
 			why = "the footer length is not written with encoding/binary.Write"
@@ -947,6 +968,88 @@ func laCells(c *Ctx, rule string) {
 			}
 		}
 	}
+	// second clause: a cell whose address is handed to objects built in a loop, allocated outside that loop, must not be
+	// assigned inside the loop: every object built earlier sees the value of the last iteration (all groups take the
+	// optionality of the last group created). A cell declared in the loop body is a fresh cell per iteration.
+	inCycle := func(a, b *ssa.BasicBlock) bool {
+		ab, ba := a == b, a == b
+		for _, x := range reachableBlocks(a) {
+			if x == b {
+				ab = true
+			}
+		}
+		for _, x := range reachableBlocks(b) {
+			if x == a {
+				ba = true
+			}
+		}
+		return ab && ba
+	}
+	scan2 := func(fns []*ssa.Function, ctl bool) {
+		for _, f := range fns {
+			for _, b := range f.Blocks {
+				for _, ins := range b.Instrs {
+					al, ok := ins.(*ssa.Alloc)
+					if !ok || !al.Heap || al.Referrers() == nil {
+						continue
+					}
+					if _, basic := al.Type().Underlying().(*types.Pointer).Elem().Underlying().(*types.Basic); !basic {
+						continue
+					}
+					var handouts, writes []*ssa.Store
+					for _, ref := range *al.Referrers() {
+						st, ok := ref.(*ssa.Store)
+						if !ok {
+							continue
+						}
+						if st.Val == ssa.Value(al) {
+							if fld := fieldOf(st.Addr); fld != nil {
+								handouts = append(handouts, st)
+							}
+						} else if st.Addr == ssa.Value(al) {
+							writes = append(writes, st)
+						}
+					}
+					// handed out inside a loop that does not contain the allocation
+					var loopHand *ssa.Store
+					for _, h := range handouts {
+						if inCycle(h.Block(), h.Block()) && len(reachableBlocks(h.Block())) > 0 && !inCycle(h.Block(), al.Block()) {
+							self := false
+							for _, x := range reachableBlocks(h.Block()) {
+								if x == h.Block() {
+									self = true
+								}
+							}
+							if self {
+								loopHand = h
+							}
+						}
+					}
+					if loopHand == nil {
+						continue
+					}
+					bad := ""
+					for _, w := range writes {
+						if inCycle(w.Block(), loopHand.Block()) {
+							bad = u.Pos(w.Pos())
+						}
+					}
+					fld := fieldOf(loopHand.Addr)
+					key := fmt.Sprintf("%s cell %s handed to %s", u.FnName(f), al.Comment, fld.Name())
+					if ctl {
+						c.control(rule+"-overwrite", u.FnName(f), bad != "", "cell handed out in a loop and never assigned in it")
+						continue
+					}
+					r.count(rule+"/shared-cells", 1)
+					if bad != "" {
+						r.bad(rule, key, bad, fmt.Sprintf("the variable %s is declared once, outside the loop, but assigned at %s in every iteration while its address is stored into %s of each object built (%s): all those objects share one cell and end up with the value of the last iteration", al.Comment, bad, fld.Name(), u.Pos(loopHand.Pos())))
+					} else {
+						r.ok(rule, key, u.Pos(loopHand.Pos()), "shared cell, never assigned inside the loop that hands it out")
+					}
+				}
+			}
+		}
+	}
 	var rt []*ssa.Function
 	for _, f := range u.Funcs {
 		if u.pkgPathOf(f) == rtPath && f.Synthetic == "" {
@@ -954,11 +1057,18 @@ func laCells(c *Ctx, rule string) {
 		}
 	}
 	scan(rt, false)
+	scan2(rt, false)
 	if fns := u.ctlFuncs("cells"); len(fns) > 0 {
 		scan(fns, true)
 		r.floor("controls/"+rule, 2, "1 bad + 1 good shared-cell control")
 	} else {
 		r.failf("%s controls not loaded", rule)
+	}
+	if fns := u.ctlFuncs("cells2"); len(fns) > 0 {
+		scan2(fns, true)
+		r.floor("controls/"+rule+"-overwrite", 2, "1 bad + 1 good (never written) control; per-iteration and after-loop cells are not candidates")
+	} else {
+		r.failf("%s-overwrite controls not loaded", rule)
 	}
 }
 
@@ -1143,4 +1253,24 @@ func keepsAccumulator(u *Universe, x ssa.Value, isSelf func(ssa.Value) bool, vis
 		}
 	}
 	return false
+}
+
+// isWriteMethodCall: a call of a method Write([]byte) (int, error), through an interface or on a concrete writer.
+func isWriteMethodCall(cc *ssa.CallCommon) bool {
+	var sig *types.Signature
+	name := ""
+	if cc.IsInvoke() {
+		name, sig = cc.Method.Name(), cc.Method.Type().(*types.Signature)
+	} else if sc := cc.StaticCallee(); sc != nil && sc.Signature.Recv() != nil {
+		name, sig = sc.Name(), sc.Signature
+	}
+	if name != "Write" || sig == nil || sig.Params().Len() != 1 || sig.Results().Len() != 2 {
+		return false
+	}
+	sl, ok := sig.Params().At(0).Type().Underlying().(*types.Slice)
+	if !ok {
+		return false
+	}
+	b, ok := sl.Elem().Underlying().(*types.Basic)
+	return ok && b.Kind() == types.Uint8
 }
